@@ -267,7 +267,7 @@ func (a *AggregatePlan) batchGetAggrKeys(chunk []KVPair, ctx *ExecuteCtx) ([]str
 	for i := 0; i < len(chunk); i++ {
 		aggKey = aggKey[:0]
 		for j := 0; j < len(fields); j++ {
-			bval, err := a.convertToBytes(fields[j][i])
+			bval, err := a.groupKeyBytes(fields[j][i])
 			if err != nil {
 				return nil, err
 			}
@@ -518,7 +518,7 @@ func (a *AggregatePlan) getAggrKey(key []byte, val []byte, ctx *ExecuteCtx) (str
 		if err != nil {
 			return "", err
 		}
-		bval, err := a.convertToBytes(eval)
+		bval, err := a.groupKeyBytes(eval)
 		if err != nil {
 			return "", err
 		}
@@ -535,6 +535,26 @@ func (a *AggregatePlan) execExpr(kvp KVPair, expr Expression, ctx *ExecuteCtx) (
 		return nil, err
 	}
 	return a.convertToBytes(result)
+}
+
+// groupKeyBytes is convertToBytes for a value that becomes part of a group
+// key: floats are written exactly, the six decimals used for display put
+// 0.1 and 0.1000001 into one group (and -0.0 and 0.0 into two)
+func (a *AggregatePlan) groupKeyBytes(val any) ([]byte, error) {
+	var fval float64
+	switch value := val.(type) {
+	case float32:
+		fval = float64(value)
+	case float64:
+		fval = value
+	default:
+		return a.convertToBytes(val)
+	}
+	if fval == 0 {
+		// -0.0 equals 0.0
+		fval = 0
+	}
+	return strconv.AppendFloat(nil, fval, 'g', -1, 64), nil
 }
 
 func (a *AggregatePlan) convertToBytes(val any) ([]byte, error) {
